@@ -225,6 +225,26 @@ def nsDeclFor (tag : Bytes) : List (Bytes × Bytes) :=
 
 /-! ## attributes as the deserialiser reads them (`Deserializer::attribute`, since 680006e) -/
 
+/-- the key behind its first byte: up to the next `=` or white space -/
+def attrKeyTail (t : Bytes) : Bytes := t.takeWhile fun c => !(c = 61 || isWs c)
+
+/-- behind the key: `=`, or white space and then `=` (anything else, or the end: `ExpectedEq`); what follows the `=` -/
+def attrAfterEq : Bytes → Option Bytes
+  | [] => none                                               -- `key` at the end
+  | c :: r =>
+    if c = 61 then some r
+    else
+      match r.dropWhile isWs with
+      | 61 :: r' => some r'
+      | _ => none                                            -- `key x` / `key ` at the end
+
+/-- behind the `=`: white space, then a value quoted by `"` or `'` (`ExpectedValue` at the end, `UnquotedValue`,
+`ExpectedQuote` when the quote is not closed); the value and what follows its closing quote -/
+def attrQuoted (v : Bytes) : Option (Bytes × Bytes) :=
+  match v.dropWhile isWs with
+  | [] => none
+  | q :: v' => if q = cQuot || q = cApos then splitAtByte q v' else none
+
 /-- one step of quick-xml's attribute iterator (`events/attributes.rs::IterState::next`; duplicate checks off, not
 HTML — the way `BytesStart::try_get_attribute` runs it) over the bytes that follow the element name.
 `none` = no further attribute; `some none` = an `AttrError` (`ExpectedEq`, `ExpectedValue`, `UnquotedValue`,
@@ -235,27 +255,12 @@ def attrNext (b : Bytes) : Option (Option (Bytes × Bytes × Bytes)) :=
   match b.dropWhile isWs with
   | [] => none
   | c0 :: t =>
-    let keyTail := t.takeWhile fun c => !(c = 61 || isWs c)
-    match t.drop keyTail.length with
-    | [] => some none                                        -- `key` at the end: ExpectedEq
-    | c :: r =>
-      let afterEq : Option Bytes :=
-        if c = 61 then some r
-        else
-          match r.dropWhile isWs with
-          | 61 :: r' => some r'
-          | _ => none                                        -- `key x` / `key ` at the end: ExpectedEq
-      match afterEq with
-      | none => some none
-      | some v =>
-        match v.dropWhile isWs with
-        | [] => some none                                    -- ExpectedValue
-        | q :: v' =>
-          if q = cQuot || q = cApos then
-            match splitAtByte q v' with
-            | none => some none                              -- ExpectedQuote
-            | some (val, rest) => some (some (c0 :: keyTail, val, rest))
-          else some none                                     -- UnquotedValue
+    match attrAfterEq (t.drop (attrKeyTail t).length) with
+    | none => some none                                      -- ExpectedEq
+    | some v =>
+      match attrQuoted v with
+      | none => some none                                    -- ExpectedValue / ExpectedQuote / UnquotedValue
+      | some (val, rest) => some (some (c0 :: attrKeyTail t, val, rest))
 
 /-- `BytesStart::try_get_attribute(name)`: the raw value of the first attribute with that key; an `AttrError` met on
 the way is `DeError::InvalidXml`. Every step consumes at least one byte: `fuel = length + 1` is never exhausted. -/
@@ -266,6 +271,21 @@ def attrFind (name : Bytes) : Nat → Bytes → Except DeErr (Option Bytes)
     | none => .ok none
     | some none => .error .invalidXml
     | some (some (key, val, rest)) => if key = name then .ok (some val) else attrFind name fuel rest
+
+/-- `check_attributes` of `xml/de.rs` (since the repair of `xml-illformed-accepted:attribute-syntax`): quick-xml's
+attribute iterator with its checks on (`BytesStart::attributes()`) run to the end — every step is an attribute
+`key = quoted value`, and no key occurs twice (`IterState::check_for_duplicates`; `seen` = the keys so far). Every step
+consumes at least one byte: `fuel = length + 1` is never exhausted. -/
+def attrsOk : Nat → Bytes → List Bytes → Bool
+  | 0, _, _ => true
+  | fuel + 1, b, seen =>
+    match attrNext b with
+    | none => true
+    | some none => false
+    | some (some (key, _, rest)) => if seen.contains key then false else attrsOk fuel rest (key :: seen)
+
+/-- `check_attributes(&x)` on the start tag whose bytes after the element name are `r` -/
+def startOk (r : Bytes) : Bool := attrsOk (r.length + 1) r []
 
 /-! ## scalar text forms (`utils/format.rs`, `xml/de.rs::parse_integer`) -/
 
@@ -928,12 +948,15 @@ before, `expect_start` / `expect_eof` / `for_each_element` skipped them: finding
 the run: every caller propagates it. A text event that holds `]]>` — which XML 1.0 allows only as the end of a CDATA
 section — and a processing instruction whose target is no name or is `xml` in any case (since 61061ab; finding
 `xml-illformed-accepted:pi-target`, fixed) are refused with `DeError::InvalidContent` as well (since 5946f21; before, it passed: finding
-`xml-illformed-accepted:cdata-end`, fixed). -/
+`xml-illformed-accepted:cdata-end`, fixed). A start tag or empty-element tag whose attributes quick-xml's
+iterator refuses — no `=`, no value, a value that is not quoted or not closed, a key written twice — is refused with
+`DeError::InvalidXml` (`check_attributes`, since ab8d746; before, the attributes were looked at only by
+`Deserializer::attribute`: finding `xml-illformed-accepted:attribute-syntax`, fixed). -/
 def deEventsAt : Nat → List QEv → List Ev
   | _, [] => []
-  | d, .start n r :: t => .start n r :: deEventsAt (d + 1) t
+  | d, .start n r :: t => if startOk r then .start n r :: deEventsAt (d + 1) t else [.bad .invalidXml]
   | d, .stop n :: t => .stop n :: deEventsAt (d - 1) t
-  | d, .empty n r :: t => .start n r :: .stop n :: deEventsAt d t
+  | d, .empty n r :: t => if startOk r then .start n r :: .stop n :: deEventsAt d t else [.bad .invalidXml]
   | d, .text raw :: t =>
     if d = 0 ∧ raw.all isWs = false then [.bad .invalidContent]
     else if hasCdataEnd raw then [.bad .invalidContent]   -- `]]>` in character data (since 5946f21)
